@@ -80,6 +80,23 @@ def i32blockH : Handler := fun inp impl => do
   let tag := if bad != 0 then "differs-from-stdlib" else if blk < 32768 then "neg-block" else "nonneg-block"
   return ({ model := m, agree := msum == isum, spec := rsum == isum && bad == 0, nontrivial := true, tag := tag } : Verdict).toJson
 
+/-- Go-side exhaustive part: `bad` = number of values on which `i32toa` ≠ `strconv.Itoa`; the probes are
+re-checked here against the model and `Nat.repr`. -/
+def i32sweepH : Handler := fun inp impl => do
+  let part ← inp.getObjValAs? Nat "blk"
+  let lo : Int := -(2^31 : Int) + (part : Int) * 16777216
+  let probeVals : List Int := [lo, lo + 8388608, lo + 16777215]
+  let mp := Json.mkObj (probeVals.map fun v => (toString v, outcomeJson strJ (i32toa v)))
+  let m := Json.mkObj [("probes", mp)]
+  if isPanicJ impl then
+    return ({ model := m, agree := false, spec := false, nontrivial := true, tag := "panic" } : Verdict).toJson
+  let bad ← impl.getObjValAs? Nat "bad"
+  let n ← impl.getObjValAs? Nat "n"
+  let ip ← impl.getObjVal? "probes"
+  let refOk := probeVals.all fun v => (ip.getObjValAs? String (toString v)).toOption == some (toString v)
+  let tag := if bad != 0 then "differs-from-stdlib" else if part < 128 then "neg-part" else "nonneg-part"
+  return ({ model := m, agree := mp == ip, spec := refOk && bad == 0 && n == 16777216, nontrivial := true, tag := tag } : Verdict).toJson
+
 def uint16H : Handler := fun inp impl => do
   let n ← inp.getObjValAs? Nat "n"
   let m := outcomeJson strJ (uint16base16 n)
@@ -374,6 +391,6 @@ def renderH : Handler := fun inp impl => do
     return ({ model := m, agree := agree, spec := spec, nontrivial := !negDur && items.any (·.kind != "text"), tag := tag } : Verdict).toJson
 
 def streams : List (String × Handler) := [
-  ("c20.atoi", atoiH), ("c20.i32toa", i32toaH), ("c20.i32block", i32blockH), ("c20.uint16", uint16H),
+  ("c20.atoi", atoiH), ("c20.i32toa", i32toaH), ("c20.i32block", i32blockH), ("c20.i32sweep", i32sweepH), ("c20.uint16", uint16H),
   ("c20.uuid", uuidH), ("c20.hostport", hostportH), ("c20.parse", parseH), ("c20.render", renderH)]
 end Fabio.Driver.C20
